@@ -122,7 +122,9 @@ fn check_path(t: &mut Tally, input: &str) {
     }
 }
 
-const PATTERNS: [&str; 11] = ["p-[0-9]*", "p>=1<2", "{p,q}-1", "p-1", "p>1>2", "{p", "", "{foo-[,p-[0-9]*}", "{p>1>2,q-1}", "{p,{q,r}}-[0-9]*", "{,p}-1"];
+const PATTERNS: [&str; 15] = ["p-[0-9]*", "p>=1<2", "{p,q}-1", "p-1", "p>1>2", "{p", "", "{foo-[,p-[0-9]*}", "{p>1>2,q-1}", "{p,{q,r}}-[0-9]*", "{,p}-1",
+    // a colon is a colon wherever it stands (a pattern half that holds some is no pattern half at all)
+    "pkg-[[:digit:]]*", "p-[:]*", "p[:]-1", "{p:,q}-1"];
 const PATHS: [&str; 11] = ["c/p", "../../c/p", "c", "a/b/c", "a/../b", "", "c//p/", "./c/p", "c/p\n", "c/\n", "../../c/p/\n"];
 
 fn check_depend(t: &mut Tally, pat: &str, path: &str, colons: &[usize]) {
